@@ -225,8 +225,10 @@ def drive(FullGrid, b, o, t, f, cart, order_seed):
         rng.shuffle(calls)
         if rng.random() < 0.4:
             calls.append(rng.choice(calls))
+        if rng.random() < 0.4:
+            calls.insert(rng.randrange(len(calls) + 1), fg.get_full_prefactors)   # the package's own in-place consumer of borders/distances
         from vlib.rec import call_and_hold
-        call_and_hold(calls, "C02.returned_object_stable")
+        call_and_hold(calls, "C02.returned_object_stable", hostile_caller=True)
         if fg.get_b_N() >= 4 and fg.get_o_N() >= 4:
             REC.nontrivial_case((b, o, t, f, cart))
     except Exception as e:
